@@ -436,6 +436,14 @@ func c09Child(c *mon.Child) {
 			}
 		}
 		ops = append(ops, c09Op{obj: "parser:" + h.ID, name: "String", run: func() string { return shared.String() }, want: fresh.String()})
+		// a parser for another production, derived from the shared one, must leave the shared one as it was
+		subStr := func(b gram.Built) string {
+			s, ok, err := b.SubString()
+			return fmt.Sprintf("%v|%v|%s", ok, err, s)
+		}
+		if _, ok, _ := fresh.SubString(); ok {
+			ops = append(ops, c09Op{obj: "parser:" + h.ID, name: "ParserForProduction+String", run: func() string { return subStr(shared) }, want: subStr(fresh)})
+		}
 	}
 	// (2) the package-level EBNF parser (no fresh instance exists: the expectation is its first, isolated answer)
 	for _, src := range []string{`A = "a" B* | (?= "x") ~"y" C? .` + "\n" + `B = <ident> ("," <ident>)+ .` + "\n" + `C = (A | B)! .`, `X = "unterminated`, `Y = Y "a" | "b" .`, ``} {
